@@ -29,6 +29,7 @@ ASSUMPTIONS = [
     'no frame loss on the virtual link, so retransmission paths are not exercised',
     'SDU sizes are kept <= min(client MTU, server MTU): larger SDUs are an API misuse the statement does not cover',
     'TxWindow in a Configuration Request is the number of I-frames its sender can receive unacknowledged',
+    'with an FCS negotiated, SDUs are kept small enough for payload + FCS to fit the 16-bit L2CAP length field',
 ]
 MIN_EVENTS = {
     'quick': {'sdu_checks': 200, 'wire_iframes': 3000, 'setup_checks': 150, 'fcs_checked': 500, 'seq_wraps': 5},
@@ -278,6 +279,10 @@ async def xfer(case, r: R):
     ch.sink = got_c.append
     mtu = min(cs['mtu'], ss['mtu'])
     mode = cs['mode']
+    if ch.fcs_enabled:
+        # with an FCS the largest information payload that fits the 16-bit L2CAP length is
+        # 65533 (bumble also appends an FCS in Basic mode when the peer asked for one)
+        mtu = min(mtu, 65533 - (4 if mode == 'ertm' else 0))
     mps_c2s = ss['mps'] if mode == 'ertm' else mtu
     pat = rng.choice(['wrap', 'edges', 'mixed', 'mixed'])
     budget = 6000 if case['tier'] == 'quick' else rng.choice([6000, 40000])
